@@ -20,9 +20,9 @@ from . import common
 LEVEL = "exploration"
 
 # variables include names that mean something to Python, NumPy or SymPy (all are plain NAME tokens)
-PRE = ("name t\nversion 1.0\n\nint n = 3\nfloat x = 0.25\nfloat e = 0.5\nint tau = 3\nfloat inf = 0.75\nfloat nan = 1.5\nfloat E = 2.5\nfloat I = -1.25\nfloat q1x = 0.5\nint q2_n = 3\ncomplex q0a = 1-2j\nfloat pix = 1.5\n"
+PRE = ("name t\nversion 1.0\n\nint n = 3\nfloat x = 0.25\nfloat e = 0.5\nint tau = 3\nfloat inf = 0.75\nfloat nan = 1.5\nfloat E = 2.5\nfloat I = -1.25\nfloat q1x = 0.5\nint q2_n = 3\ncomplex q0a = 1-2j\nfloat pix = 1.5\nfloat c = 299792458\nfloat g = 10\ncomplex w = -4\ncomplex u = 2.5\n"
        "float array A =\n    1.5, 2.5\n    -3.0, 4.25\n")
-ENV = {"n": 3, "x": 0.25, "e": 0.5, "tau": 3, "inf": 0.75, "nan": 1.5, "E": 2.5, "I": -1.25, "q1x": 0.5, "q2_n": 3, "q0a": 1 - 2j, "pix": 1.5}
+ENV = {"n": 3, "x": 0.25, "e": 0.5, "tau": 3, "inf": 0.75, "nan": 1.5, "E": 2.5, "I": -1.25, "q1x": 0.5, "q2_n": 3, "q0a": 1 - 2j, "pix": 1.5, "c": 299792458.0, "g": 10.0, "w": complex(-4), "u": complex(2.5)}
 ARR = {"A": [1.5, 2.5, -3.0, 4.25]}
 FUNCS = list(denote.FN)
 BINOPS = ["+", "-", "*", "/", "**"]
@@ -518,6 +518,16 @@ def run(ctx):
         stats.update(st)
         V.merge(vr)
     bounds.append({"family": "N<=2 over variables named e, tau, inf, nan, E, I, q1x, q2_n, q0a, pix (and 2, 0.5, A[tau-1], A[q2_n]), optional '-', 1 span, 2 functions, also without blanks", "token_strings": len(nitems)})
+    # (b-typed) variables declared with a wider type than their initialiser (float from an integer literal, complex from
+    # a real one): later arithmetic runs in the declared type - no 64-bit wrap-around, complex roots and logarithms
+    typed = [["c"], ["g"], ["w"], ["u"], ["3"], ["20"], ["0.5"], ["2"]]
+    titems = [(t, False) for N in (1, 2) for t in gen(N, typed, un1, BINOPS, 1, ["sqrt", "log"])]
+    titems += [(t, False) for t in gen(3, [["c"], ["g"], ["3"]], [[]], ["*", "**"], 0)]
+    for r in pool.pmap(_prep, [titems[i:i + 1000] for i in range(0, len(titems), 1000)], chunk=1, timeout=1800):
+        st, vr = r
+        stats.update(st)
+        V.merge(vr)
+    bounds.append({"family": "N<=2 over variables declared float / complex with integer / real initialisers (c = 299792458, g = 10, w = -4, u = 2.5), sqrt and log at every span; N=3 products and powers of c, g, 3", "token_strings": len(titems)})
     # (b-chains) additive chains whose terms differ widely in size: + and - associate to the left, and the rounding
     # model of the tolerance (1e-12 x the largest *result of an operation* on the way) is tight where early terms cancel
     terms = [["1"], ["1e16"], ["1e-17"], ["0.1"], ["0.3"], ["3"], ["1e-7"]]
